@@ -1,7 +1,7 @@
-SPECIFICATION Spec
+SPECIFICATION SafetySpec
 CONSTANTS
   Senders <- Senders2
   Script <- Script2
 INVARIANTS TypeOK Delivered GeneralOrder LastWins FoldRefinement OneTerminate OracleAgree
-PROPERTIES Refines AbsInit CollectorTerminates CollectReturns DropReturns
+PROPERTIES Refines AbsInit
 CHECK_DEADLOCK FALSE
